@@ -238,6 +238,7 @@ type vpKV struct {
 	cutLat    time.Duration
 	latResp   time.Duration // bound of the response leg (0 = immediate)
 	ackYield  bool
+	hangLat   time.Duration // an unanswered request fails after this long
 	hangIsTimeout bool // an unanswered request fails after the client's 5s request time-out instead of hanging for ever
 	afterApply func(op string)
 	latMin    time.Duration // lower bound of the request latency (latMin == lat: concrete latency)
@@ -274,6 +275,10 @@ func (k *vpKV) begin(op string) int {
 		}
 	}
 	if f == vpFaultHang {
+		if k.hangLat > 0 {
+			vpDelay(op+".slow", k.hangLat, k.hangLat)
+			return vpFaultErr
+		}
 		if k.hangIsTimeout {
 			vpDelay(op+".clienttimeout", 5*time.Second, 5*time.Second) // nats.go request time-out
 			return vpFaultErr
@@ -499,6 +504,7 @@ func (m *vpMetrics) ObserveLeaderDuration(duration time.Duration, labels prometh
 
 // scripted health checker: verdict per call chosen by the solver/explorer
 type vpHealth struct {
+	yieldInCheck bool // the check takes a moment: a scheduling point inside Check
 	calls    int
 	verdicts []bool
 	deadlineOK bool
@@ -511,6 +517,9 @@ func (h *vpHealth) Check(ctx context.Context) bool {
 	ok := has && dl.Sub(time.Now()) <= 100*time.Millisecond
 	vpAssert("C12.ctx-100ms", ok)
 	v := vpChoose("healthy", 2) == 1
+	if h.yieldInCheck {
+		vpYield("health.check")
+	}
 	h.verdicts = append(h.verdicts, v)
 	vpEvent("health", h.calls, v)
 	return v
